@@ -313,6 +313,7 @@ func runC04(t *testing.T, c Case) (res Result) {
 		return o
 	}
 	kindSig := fmt.Sprint(kinds)
+	var nameV *Result
 	check := func(o outcome) *Result {
 		switch {
 		case o.pan != nil:
@@ -406,6 +407,33 @@ func runC04(t *testing.T, c Case) (res Result) {
 		w.WriteEntry(v2.Entry{Operation: v2.OpInsert, Key: "after", Data: []byte("x")})
 		return nil, w.Close()
 	}))
+	// a swamp name a reader returns without an error is the name that was written (or none): where the damage left the
+	// bytes of the header and of the name as they were - a cut inside them included - nothing else can be "read"
+	d.PutFile(stHyd, file)
+	headIntact := true
+	for i := 0; i < len(file) && i < int(dataStart); i++ {
+		if file[i] != orig[i] {
+			headIntact = false
+			break
+		}
+	}
+	if headIntact && !crcFixed { // (a forged block with a recomputed checksum may carry any name in the legacy layout)
+		func() {
+			defer func() { recover() }() // panics are the business of the entry points above
+			if n, e := v2.ReadSwampName(stHyd); e == nil && n != "" && n != name {
+				v := violation("misread_name_in_ReadSwampName", "ReadSwampName returned %q without error for a %d byte file (%s); the name written is %q and header+name take %d bytes", n, len(file), kindSig, name, dataStart)
+				nameV = &v
+			}
+			if _, n, e := rawLoad(stHyd); e == nil && n != "" && n != name && nameV == nil {
+				v := violation("misread_name_in_LoadIndex", "LoadIndex returned the name %q without error for a %d byte file (%s); the name written is %q", n, len(file), kindSig, name)
+				nameV = &v
+			}
+		}()
+		if nameV != nil {
+			nameV.Counters = res.Counters
+			return *nameV
+		}
+	}
 	reported := 0
 	for _, o := range outs {
 		if v := check(o); v != nil {
